@@ -3,7 +3,7 @@
    Model: Lbfgs.v (circular buffer idx/full/slots exactly as lbfgs.hpp / lbfgs.tpp; abstract bounded history;
    BFGS operator Hop by the recursion H⁺ = (I-ρsyᵀ)H(I-ρysᵀ)+ρssᵀ, H₀ = γI).  `pw` is std::pow (arbitrary). *)
 From Coq Require Import Reals List ZArith Bool Arith Lra.
-From Alpaqa Require Import Num NumR Vec Lbfgs LbfgsProofs LbfgsAlgebra LbfgsMasked.
+From Alpaqa Require Import Num NumR Vec Lbfgs LbfgsProofs LbfgsAlgebra LbfgsMasked LbfgsGenLib LbfgsGen LbfgsGenInst LbfgsGenEq.
 Import ListNotations.
 Local Open Scope R_scope.
 
@@ -195,4 +195,122 @@ Proof.
             = [([0; 1], [1; 3]); ([1; 1], [3; 1])]) by (rcompute; reflexivity).
   rewrite E. split; [reflexivity|]. split; [repeat constructor|]. split; [repeat constructor; cbn; lra|].
   rcompute; lra.
+Qed.
+
+(* ---------------------------------------------------------------------------------------------------------------------------
+   (8) The same statements for the code REGENERATED from lbfgs.tpp / lbfgs.hpp on every run (coq/gen/LbfgsGen.v, translator
+       translate/gen_lbfgs.py): g_update_valid, g_update_sy_impl, g_apply (its two loop bodies g_apply_rev_step /
+       g_apply_fwd_step over the generated iteration order g_foreach_rev / g_foreach_fwd), g_apply_masked_impl (g_..._rev_step,
+       g_..._fwd_step, the lambdas dotJ / axmyJ / scalJ), g_scale_y, g_reset, g_resize — run on the column store of
+       LbfgsGenInst.v.  They follow from the piece-by-piece equalities of LbfgsGenEq.v (g_<name>_eq), so a source change that
+       changes a generated piece breaks the equality named after it, and with it these obligations. *)
+Theorem C09_gen_update_valid_is_documented_test : forall (pw : R -> R -> R) (P : params R) (yts sts ptp : R),
+  let a := if p_force_pos_def P then yts else Rabs yts in
+  g_update_valid lbfgs_ops pw (gp_of P) yts sts ptp = true <->
+  (p_min_abs_s P < sts /\ p_min_div_fac P * sts < a /\
+   (0 < p_cbfgs_ϵ P -> sts * p_cbfgs_ϵ P * pw ptp (p_cbfgs_α P / 2) <= a)).
+Proof. exact gen_update_valid_spec. Qed.
+Print Assumptions C09_gen_update_valid_is_documented_test.
+
+(* whole runs of the generated code from the constructor: ring refinement with the GENERATED order / current_history *)
+Theorem C09_gen_ring_refinement : forall (pw : R -> R -> R) (P : params R) (n : nat) (st0 : state R) (ops : list (op R)),
+  gctor pw P n = Some st0 ->
+  let st := grun pw P ops st0 in
+  gpairs pw P st = abs_run pw P ops [] /\
+  g_current_history lbfgs_ops pw (gp_of P) st = length (abs_run pw P ops []) /\
+  (length (abs_run pw P ops []) <= p_memory P)%nat /\
+  g_foreach_rev lbfgs_ops pw (gp_of P) st = rev (g_foreach_fwd lbfgs_ops pw (gp_of P) st) /\
+  NoDup (g_foreach_fwd lbfgs_ops pw (gp_of P) st).
+Proof. exact gen_ring_refinement. Qed.
+Print Assumptions C09_gen_ring_refinement.
+
+Theorem C09_gen_update_stores_iff_accepted : forall (pw : R -> R -> R) (P : params R) (st : state R) s y pp forced,
+  inv P st ->
+  let r := g_update_sy_impl lbfgs_ops pw (gp_of P) st s y pp forced in
+  fst r = accepted pw P s y pp forced /\
+  inv P (snd r) /\
+  (fst r = false -> snd r = st) /\
+  (fst r = true -> hist3 (snd r) = push (p_memory P) (hist3 st) (s, y, Some (n1 / vdot y s))).
+Proof. exact gen_update_stores_iff_accepted. Qed.
+Print Assumptions C09_gen_update_stores_iff_accepted.
+
+(* the generated two-loop recursion = dense BFGS operator of the abstract history, after ANY run of generated operations *)
+Theorem C09_gen_apply_is_dense_bfgs_of_history : forall (pw : R -> R -> R) (P : params R) n st0 ops q γ,
+  gctor pw P n = Some st0 ->
+  let st := grun pw P ops st0 in
+  let h := abs_run pw P ops [] in
+  let o := snd (gstep pw P st (OApply q γ)) in
+  match h with
+  | [] => o_ret o = 0%nat /\ o_q o = q
+  | _ => o_ret o = 1%nat /\ o_q o = Hbfgs h (doc_γ P h γ) q
+  end.
+Proof. exact gen_apply_after_any_history. Qed.
+Print Assumptions C09_gen_apply_is_dense_bfgs_of_history.
+
+Theorem C09_gen_apply_is_dense_bfgs_of_stored_pairs : forall (pw : R -> R -> R) (P : params R) st q γ,
+  inv P st -> rho_ok st ->
+  let r := g_apply lbfgs_ops pw (gp_of P) st q γ in
+  if is_empty st then r = (false, q, st)
+  else fst (fst r) = true /\ snd (fst r) = Hbfgs (pairs st) (doc_γ P (pairs st) γ) q.
+Proof. exact gen_apply_is_H. Qed.
+Print Assumptions C09_gen_apply_is_dense_bfgs_of_stored_pairs.
+
+Theorem C09_gen_two_loops_are_the_recursion : forall (pw : R -> R -> R) (P : params R) st q γ,
+  inv P st -> is_empty st = false ->
+  let r := g_apply lbfgs_ops pw (gp_of P) st q γ in
+  fst (fst r) = true /\ snd (fst r) = TLrec (rev (hist st)) (apply_γ P st γ) q.
+Proof. exact gen_apply_is_TLrec. Qed.
+Print Assumptions C09_gen_two_loops_are_the_recursion.
+
+Theorem C09_gen_apply_masked_preserves_history : forall (pw : R -> R -> R) (P : params R) st q γ J,
+  inv P st ->
+  let st' := snd (g_apply_masked_impl lbfgs_ops pw (gp_of P) st q γ J) in
+  hist3 st' = hist3 st /\
+  (forall j, sl_s (get st' j) = sl_s (get st j) /\ sl_y (get st' j) = sl_y (get st j) /\ sl_ρ (get st' j) = sl_ρ (get st j)) /\
+  current_history st' = current_history st /\
+  (rho_ok st -> rho_ok st').
+Proof. exact gen_apply_masked_keeps_history. Qed.
+Print Assumptions C09_gen_apply_masked_preserves_history.
+
+Theorem C09_gen_masked_is_restricted_construction : forall (pw : R -> R -> R) (P : params R) st q γ J,
+  inv P st -> is_empty st = false -> cbfgs_on P = false ->
+  NoDup J -> (forall j, In j J -> (j < length q)%nat) ->
+  (length J = length q -> J = seq 0 (length q)) ->
+  (forall sl, In sl (hist st) -> length (sl_s sl) = length q /\ length (sl_y sl) = length q) ->
+  let r := g_apply_masked_impl lbfgs_ops pw (gp_of P) st q γ J in
+  let '(kept, γ', ok) := masked_plan pw P J (rev (hist st)) (if p_curvature P then -1 else γ) in
+  (hist3 (snd r) = hist3 st /\ (forall j, sl_ρ (get (snd r) j) = sl_ρ (get st j)) /\ (rho_ok st -> rho_ok (snd r))) /\
+  (forall j, ~ In j J -> nth j (snd (fst r)) 0 = nth j q 0) /\
+  length (snd (fst r)) = length q /\
+  if ok then fst (fst r) = GRet true /\ restr J (snd (fst r)) = Hop kept γ' (restr J q)
+  else fst (fst r) = GRet false.
+Proof. exact gen_apply_masked_restricted. Qed.
+Print Assumptions C09_gen_masked_is_restricted_construction.
+
+Theorem C09_gen_scale_y_is_dense_rescale : forall (pw : R -> R -> R) (P : params R) st f, inv P st -> ρ_some st ->
+  inv P (g_scale_y lbfgs_ops pw (gp_of P) st f) /\ hist3 (g_scale_y lbfgs_ops pw (gp_of P) st f) = map (scale3 f) (hist3 st) /\
+  (rho_ok st -> rho_ok (g_scale_y lbfgs_ops pw (gp_of P) st f)).
+Proof. exact gen_scale_y_dense. Qed.
+Print Assumptions C09_gen_scale_y_is_dense_rescale.
+
+(* non-vacuity for the generated code: the constructor succeeds, and the wrap-around run of C09_nonvacuous executed by the
+   GENERATED functions stores the same two pairs (in the generated foreach_fwd order) *)
+Example C09_gen_nonvacuous :
+  let P := {| p_memory := 2; p_min_div_fac := 0; p_min_abs_s := 0; p_cbfgs_α := 1; p_cbfgs_ϵ := 0;
+              p_force_pos_def := true; p_curvature := true |} in
+  let ops := [OUpdSy [1; 0] [2; 1] 0 false; OUpdSy [1; 1] [-1; 0] 0 false; OUpdSy [0; 1] [1; 3] 0 false; OApplyM [1; 1] 1 [1%nat]; OUpdSy [1; 1] [3; 1] 0 false] in
+  exists st0, gctor wpw P 2 = Some st0 /\
+    gpairs wpw P (grun wpw P ops st0) = [([0; 1], [1; 3]); ([1; 1], [3; 1])] /\
+    g_current_history lbfgs_ops wpw (gp_of P) (grun wpw P ops st0) = 2%nat.
+Proof.
+  cbn zeta. eexists; split; [reflexivity|].
+  pose proof (C09_gen_ring_refinement wpw {| p_memory := 2; p_min_div_fac := 0; p_min_abs_s := 0; p_cbfgs_α := 1; p_cbfgs_ϵ := 0;
+              p_force_pos_def := true; p_curvature := true |} 2 _
+     [OUpdSy [1; 0] [2; 1] 0 false; OUpdSy [1; 1] [-1; 0] 0 false; OUpdSy [0; 1] [1; 3] 0 false; OApplyM [1; 1] 1 [1%nat]; OUpdSy [1; 1] [3; 1] 0 false]
+     eq_refl) as (Hp & Hc & _). cbn zeta in Hp, Hc.
+  assert (E : abs_run wpw {| p_memory := 2; p_min_div_fac := 0; p_min_abs_s := 0; p_cbfgs_α := 1; p_cbfgs_ϵ := 0;
+              p_force_pos_def := true; p_curvature := true |}
+              [OUpdSy [1; 0] [2; 1] 0 false; OUpdSy [1; 1] [-1; 0] 0 false; OUpdSy [0; 1] [1; 3] 0 false; OApplyM [1; 1] 1 [1%nat]; OUpdSy [1; 1] [3; 1] 0 false] []
+            = [([0; 1], [1; 3]); ([1; 1], [3; 1])]) by (rcompute; reflexivity).
+  rewrite E in Hp, Hc. split; [exact Hp|exact Hc].
 Qed.
